@@ -11,6 +11,7 @@ def dispatch (j : Json) : Except String Json := do
   | "eam" => handleEam op j
   | "range" => handleRange op j
   | "cutoff" => handleCutoff op j
+  | "expr" => handleExpr op j
   | _ => throw s!"unknown model {m}"
 
 def step (line : String) : String :=
